@@ -27,7 +27,9 @@ fn main() {
     let args: Vec<String> = std::env::args().collect();
     let mut seed = 0u64;
     let mut tier = "quick".to_string();
-    let mut out = PathBuf::from("/verif/work/subjects");
+    let vroot = model::run::root();
+    let hroot = vroot.join("harness");
+    let mut out = vroot.join("work/subjects");
     let mut n_core = 0usize;
     let mut shards = 8usize;
     let mut batch = 0u64;
@@ -131,13 +133,14 @@ fn main() {
     let mut changed = 0;
     changed += write_if_changed(&out.join("Cargo.toml"), &ws) as usize;
     changed += write_if_changed(&out.join(".cargo/config.toml"), "[net]\noffline = true\n") as usize;
-    let lock = std::fs::read_to_string("/verif/harness/Cargo.lock").expect("harness lockfile");
+    let lock = std::fs::read_to_string(hroot.join("Cargo.lock")).expect("harness lockfile");
     if !out.join("Cargo.lock").exists() {
         std::fs::write(out.join("Cargo.lock"), lock).unwrap();
     }
     let shard_toml = |k: usize| {
         format!(
-            "[package]\nname = \"shard{k}\"\nversion = \"0.1.0\"\nedition = \"2021\"\n\n[dependencies]\nlogos = {{ path = \"/repo\", features = [\"verif_hooks\"] }}\nsubject-rt = {{ path = \"/verif/harness/subject-rt\" }}\n"
+            "[package]\nname = \"shard{k}\"\nversion = \"0.1.0\"\nedition = \"2021\"\n\n[dependencies]\nlogos = {{ path = \"/repo\", features = [\"verif_hooks\"] }}\nsubject-rt = {{ path = \"{hr}/subject-rt\" }}\n",
+            hr = hroot.display()
         )
     };
     for k in 0..shards {
@@ -162,7 +165,8 @@ fn main() {
         deps.push_str(&format!("shard{k} = {{ path = \"../shard{k}\" }}\n"));
     }
     let runner_toml = format!(
-        "[package]\nname = \"runner\"\nversion = \"0.1.0\"\nedition = \"2021\"\n\n[features]\nforbid_unsafe = [\"logos/forbid_unsafe\"]\nstate_machine_codegen = [\"logos/state_machine_codegen\"]\n\n[dependencies]\nlogos = {{ path = \"/repo\", features = [\"verif_hooks\"] }}\nsubject-rt = {{ path = \"/verif/harness/subject-rt\" }}\n{deps}"
+        "[package]\nname = \"runner\"\nversion = \"0.1.0\"\nedition = \"2021\"\n\n[features]\nforbid_unsafe = [\"logos/forbid_unsafe\"]\nstate_machine_codegen = [\"logos/state_machine_codegen\"]\n\n[dependencies]\nlogos = {{ path = \"/repo\", features = [\"verif_hooks\"] }}\nsubject-rt = {{ path = \"{hr}/subject-rt\" }}\n{deps}",
+        hr = hroot.display()
     );
     changed += write_if_changed(&out.join("runner/Cargo.toml"), &runner_toml) as usize;
     let mut main = String::from("// generated by subjgen - do not edit\nfn main() {\n    let mut subjects: Vec<&'static dyn subject_rt::Subject> = Vec::new();\n");
